@@ -68,7 +68,7 @@ SinglePrim(c) ==
       [] c.op = "chown" -> "Chown" [] c.op = "lchown" -> "Lchown" [] c.op = "chtimes" -> "Chtimes"
       [] c.op = "chdir" -> "Chdir" [] c.op = "stat" -> "Stat" [] c.op = "lstat" -> "Lstat"
       [] c.op = "readlink" -> "Readlink" [] c.op = "evalsymlinks" -> "EvalSymlinks" [] c.op = "getwd" -> "Getwd"
-      [] c.op = "createtemp" -> "CreateTemp" [] c.op = "open" -> "OpenFile"
+      [] c.op = "createtemp" -> "CreateTemp" [] c.op = "open" -> "OpenFile" [] c.op = "walk" -> "WalkDir"
       [] c.op = "read" -> "FileRead" [] c.op = "readat" -> "FileReadAt" [] c.op \in {"write", "writestring"} -> "FileWrite"
       [] c.op = "writeat" -> "FileWriteAt" [] c.op = "seek" -> "FileSeek" [] c.op = "ftruncate" -> "FileTruncate"
       [] c.op = "fstat" -> "FileStat" [] c.op = "fsync" -> "FileSync" [] c.op = "fchmod" -> "FileChmod"
@@ -237,6 +237,8 @@ BpTranslate(st, c) ==
 
 BpStrict(impl, st, c) ==
     IF c.op \in {"symlink", "readlink", "evalsymlinks"} THEN Refused(st)      \* no symbolic links through BasePathFS
+    ELSE IF c.op = "glob" THEN {Strict(GlobK(st, BpTranslate(st, c), Len(BaseDir)))}
+    ELSE IF c.op = "walk" THEN {Strict(WalkDirK(st, BpTranslate(st, c), Len(BaseDir)))}
     ELSE {[o EXCEPT !.res.path = ToVirtual(@)] : o \in Outcomes(impl, st, BpTranslate(st, c))}
 
 (* KF31  BasePathFS hands a RELATIVE path to the base file system untranslated: it is resolved against the
@@ -252,7 +254,10 @@ Panics(st) == [res |-> [R0 EXCEPT !.err = "PANIC"], st |-> st, kf |-> "KF31", in
 KF31(impl, st, c) ==
     IF "KF31" \notin OpenKF THEN {}
     ELSE IF c.op = "getwd" THEN (IF IsPrefixSeq(BaseDir, st.cwdn) THEN {} ELSE {Panics(st)})
-    ELSE IF ~UsesRel(c) \/ c.op \in {"symlink", "readlink", "evalsymlinks"} THEN {}
+    ELSE IF c.op = "glob" /\ IsRel(c.p) THEN
+        \* the matches of the untranslated pattern are relative names: translating the first one panics
+        (IF Glob(st, c).res.names # <<>> THEN {Panics(st)} ELSE {})
+    ELSE IF ~UsesRel(c) \/ c.op \in {"symlink", "readlink", "evalsymlinks", "glob", "walk"} THEN {}
     ELSE UNION {IF o.res.err \notin {"ok", "EOF"} THEN {Panics(st)}
                 \* CreateTemp succeeds in the base, then translating the (relative) name of the new file panics
                 ELSE IF c.op = "createtemp" THEN {Panics(o.st)}
